@@ -42,7 +42,6 @@ type Subtract struct {
 // Call the function with the arguments provided.
 func (f *Subtract) Call(s *slip.Scope, args slip.List, depth int) (dif slip.Object) {
 	slip.CheckArgCount(s, depth, f, args, 1, -1)
-	var arg slip.Object
 	for pos, a := range args {
 		if dif == nil {
 			dif = a
@@ -52,7 +51,7 @@ func (f *Subtract) Call(s *slip.Scope, args slip.List, depth int) (dif slip.Obje
 			if pos == len(args)-1 {
 				switch td := dif.(type) {
 				case slip.Fixnum:
-					dif = -td
+					dif = subFixnums(0, td)
 				case slip.SingleFloat:
 					dif = -td
 				case slip.DoubleFloat:
@@ -74,29 +73,7 @@ func (f *Subtract) Call(s *slip.Scope, args slip.List, depth int) (dif slip.Obje
 			}
 			continue
 		}
-		arg, dif = slip.NormalizeNumber(a, dif)
-		switch ta := arg.(type) {
-		case slip.Fixnum:
-			dif = dif.(slip.Fixnum) - ta
-		case slip.SingleFloat:
-			dif = dif.(slip.SingleFloat) - ta
-		case slip.DoubleFloat:
-			dif = dif.(slip.DoubleFloat) - ta
-		case *slip.LongFloat:
-			// The difference goes into a new value since dif can be the
-			// first argument itself.
-			syncFloatPrec(ta, dif.(*slip.LongFloat))
-			var z big.Float
-			dif = (*slip.LongFloat)(z.Sub((*big.Float)(dif.(*slip.LongFloat)), (*big.Float)(ta)))
-		case *slip.Bignum:
-			var z big.Int
-			dif = (*slip.Bignum)(z.Sub((*big.Int)(dif.(*slip.Bignum)), (*big.Int)(ta)))
-		case *slip.Ratio:
-			var z big.Rat
-			dif = (*slip.Ratio)(z.Sub((*big.Rat)(dif.(*slip.Ratio)), (*big.Rat)(ta)))
-		case slip.Complex:
-			dif = slip.Complex(complex128(dif.(slip.Complex)) - complex128(ta))
-		}
+		dif = subNumbers(dif, a)
 	}
 	// A difference of nothing but bignums stays a bignum even when it fits
 	// in a fixnum. That is the way to get a small bignum without a coerce.
@@ -106,4 +83,33 @@ func (f *Subtract) Call(s *slip.Scope, args slip.List, depth int) (dif slip.Obje
 		}
 	}
 	return
+}
+
+// subNumbers returns dif less arg. The result is not reduced to its
+// canonical type.
+func subNumbers(dif, arg slip.Object) slip.Object {
+	arg, dif = slip.NormalizeNumber(arg, dif)
+	switch ta := arg.(type) {
+	case slip.Fixnum:
+		dif = subFixnums(dif.(slip.Fixnum), ta)
+	case slip.SingleFloat:
+		dif = dif.(slip.SingleFloat) - ta
+	case slip.DoubleFloat:
+		dif = dif.(slip.DoubleFloat) - ta
+	case *slip.LongFloat:
+		// The difference goes into a new value since dif can be an argument
+		// of the caller.
+		syncFloatPrec(ta, dif.(*slip.LongFloat))
+		var z big.Float
+		dif = (*slip.LongFloat)(z.Sub((*big.Float)(dif.(*slip.LongFloat)), (*big.Float)(ta)))
+	case *slip.Bignum:
+		var z big.Int
+		dif = (*slip.Bignum)(z.Sub((*big.Int)(dif.(*slip.Bignum)), (*big.Int)(ta)))
+	case *slip.Ratio:
+		var z big.Rat
+		dif = (*slip.Ratio)(z.Sub((*big.Rat)(dif.(*slip.Ratio)), (*big.Rat)(ta)))
+	case slip.Complex:
+		dif = slip.Complex(complex128(dif.(slip.Complex)) - complex128(ta))
+	}
+	return dif
 }
